@@ -182,13 +182,13 @@ def run(tools, seed, tier):
                     observed_proj=l2.projection(fx) if (verdict or "").startswith("DIFF") else None,
                     canon=canon.get(o["id"]),
                     facts={k: fx.get(k) for k in ("parse_error", "first_line", "pkg_name", "imports", "mocks",
-                                                  "top_decls", "type_errors", "typecheck")},
+                                                  "top_decls", "type_errors", "error_sites", "typecheck")},
                     src=src))
             def fill(x):
                 if isinstance(x, dict):
                     for k2 in list(x):
                         if x[k2] is None and k2 in ("params", "results", "methods", "tparams", "recv_tparams", "imports",
-                                                    "mocks", "func_order", "top_decls", "type_errors"):
+                                                    "mocks", "func_order", "top_decls", "type_errors", "error_sites"):
                             x[k2] = []
                         else:
                             fill(x[k2])
